@@ -11,7 +11,7 @@ Definition good_params : params :=
    threads start, reader indices started at 2^32-3 *)
 Definition ex_cfg (rm : rmode) (nw nr : nat) (pre : Z) : cfg :=
   {| c_k := 1; c_wm := WLock; c_rm := rm; c_nw := nw; c_nr := nr; c_thr := true; c_pre := pre;
-     c_wcnt := fun _ => 2%nat; c_rq := fun _ => 4%nat; c_idx0 := fun _ => two32 - 3 |}.
+     c_wcnt := fun _ => 2%nat; c_rq := fun _ => 4%nat; c_idx0 := fun _ => two32 - 3; c_val := fun m => m |}.
 
 Fixpoint rounds (n : nat) (ts : list nat) : list (nat * nat) :=
   match n with O => [] | S m => map (fun t => (t, O)) ts ++ rounds m ts end.
@@ -23,6 +23,7 @@ Proof.
   - unfold cap; simpl. lia.
   - discriminate.
   - intros t _. unfold cap, two32; simpl. split; [lia|reflexivity].
+  - intros m _. reflexivity.
 Qed.
 
 (* two writers, two readers: both readers complete their four reads, across the wrap of the
@@ -38,7 +39,7 @@ Proof. vm_compute. repeat split; reflexivity. Qed.
 Definition ex_once : cfg :=
   {| c_k := 1; c_wm := WLock; c_rm := ROnce; c_nw := 2; c_nr := 2; c_thr := true; c_pre := 1;
      c_wcnt := fun _ => 2%nat; c_rq := fun t => if Nat.eqb t 2 then 2%nat else 3%nat;
-     c_idx0 := fun _ => two32 - 3 |}.
+     c_idx0 := fun _ => two32 - 3; c_val := fun m => m |}.
 Example rb_once_nonvacuous :
   let s := exec sys (step good_params) (init ex_once) (rounds 120 [0;1;2;3]%nat) in
   s_lapped s = false /\ s_uncov s = 0%nat /\ s_nw s = 5 /\ s_nt s = 5 /\
@@ -66,7 +67,7 @@ Proof. vm_compute. split; [reflexivity|lia]. Qed.
    later message: the hypothesis s_lapped = false of the theorems is needed *)
 Definition ex_nothr : cfg :=
   {| c_k := 1; c_wm := WSingle; c_rm := RBusy; c_nw := 1; c_nr := 1; c_thr := false; c_pre := 0;
-     c_wcnt := fun _ => 4%nat; c_rq := fun _ => 2%nat; c_idx0 := fun _ => 0 |}.
+     c_wcnt := fun _ => 4%nat; c_rq := fun _ => 2%nat; c_idx0 := fun _ => 0; c_val := fun m => m |}.
 Example rb_precondition_needed :
   let s := exec sys (step good_params) (init ex_nothr) (rounds 12 [0]%nat ++ rounds 12 [1]%nat) in
   s_lapped s = true /\ t_cnt (s_thr s 1%nat) = 0.
